@@ -649,6 +649,17 @@ SPECS.append(FucSpec(
            'zero and was requested, tracking attributes deleted, ascend to the cause'))
 
 
+# the same contract decides C05's clauses about the countdown (every finished event - cancelled ones included - reports to its cause,
+# one decrement each, <name>_complete exactly at zero): registered under C05 as well
+import copy as _copy
+_ed5 = _copy.copy(SPECS[-1])
+_ed5.prop = 'C05'
+_ed5.clause = ('_eventDone (completion countdown): unless a handler still waits, the event reports to its cause chain - one decrement per '
+               'finished closure, <name>_complete exactly when a counter reaches zero and was requested, tracking attributes deleted, '
+               'ascend; no path (cancelled, failed, no feedback requested) skips the walk')
+SPECS.append(_ed5)
+
+
 # ============================================================================= Manager._fire / fireEvent (C02, C03, C05)
 F_FIELDS = dict(M_FIELDS)
 F_FIELDS.update({'ident': Int, 'channel': Dyn(Any), 'v_event': Ref, 'manager': Ref, 'notify': Any, 'v_parent': Ref, 'handled': Bool, '_value': Any})
